@@ -228,7 +228,12 @@ V = [
     ("C08", B, "absolute threshold", POC, "thresh = 0.01 * np.max(gradn)",
      "thresh = 1e-12", "C08-R1"),
     ("C08", B, "fallback removed", POC,
-     "    if np.isnan(cp):\n        cp = force.size // 2\n", "", "C08-R2"),
+     "    if np.isnan(cp) or not 0 <= cp < force.size:\n"
+     "        # (a fitted contact point outside of the data is not a result)\n"
+     "        cp = force.size // 2\n", "", "C08-R2"),
+    ("C08", B, "out-of-range index returned as is", POC,
+     "    if np.isnan(cp) or not 0 <= cp < force.size:\n",
+     "    if np.isnan(cp):\n", "C08-R5"),
     ("C08", B, "frechet guard removed", POC, "    if force.size < 2:",
      "    if False:", "C08-R3"),
     ("C08", N, "method form of max", POC,
